@@ -500,3 +500,14 @@ Proof.
   assert (B : IZR j <= IZR W - 1) by (rewrite <- minus_IZR; apply IZR_le; lia).
   repeat split; nra.
 Qed.
+(* the REPAIRED body (fixes/C02_derive_grid_1d_all_false.diff: values from grid_1d_slim_via_shape_slim_from, as the 2-D twin does), hand
+   transcription: every pixel's centre, with the all-false mask of the same geometry *)
+Definition DeriveGrid1D_all_false_repaired (M : list bool * R * R) : list R * (list bool * R * R) :=
+  (@grid_1d_slim_via_shape_slim_from ROps (Z.of_nat (length (fst (fst M)))) (snd (fst M)) (snd M), @DeriveMask1D_all_false ROps M).
+Lemma derive_all_false_1d_repaired_ok m s o : s <> 0 ->
+  DeriveGrid1D_all_false_repaired (m, s, o) =
+  (map (@centre1_spec ROps (Z.of_nat (length m)) s o) (seqZ (Z.of_nat (length m))), (full1 false (Z.of_nat (length m)), s, o)).
+Proof.
+  intros Hs. unfold DeriveGrid1D_all_false_repaired, grid_1d_slim_via_shape_slim_from, DeriveMask1D_all_false, Mask1D_all_false, Mask1D_new.
+  cbn [fst snd]. rewrite grid1_mask_centres by assumption. rewrite full1_length, Nat2Z.id, unmasked1_full1_false. reflexivity.
+Qed.
